@@ -46,6 +46,8 @@ def leaf(kind, ids, rng=None, text_ws=False, inline_only=False):
             r["taglike"] = True
         if text_ws and rng is not None and rng.random() < 0.2:
             r["s"] = rng.choice(["\n", "\r\n", "\n  ", " "]) + r["s"]
+        if text_ws and rng is not None and rng.random() < 0.2:
+            r["s"] = r["s"] + rng.choice(["\n", "\r\n", "\n\n", " ", "\n  "])   # rich reprs usually end with a line break of their own: verbatim
         return r
     if kind == "objtf":
         return {"k": "obj", "s": ids.next("o"), "also_tagifiable": True, "direct_only": True}
